@@ -1,8 +1,8 @@
 (** C01, float form of the mass: to_mass(atom) = float(mass string), modelled as the correctly rounded
     (nearest, ties-to-even) binary64 of the exact decimal, as significand/exponent pair (m, e) = m * 2^e
     (Common/NearestDouble.v; integer arithmetic only). *)
-From Coq Require Import ZArith List String Bool.
-Require Import QV.Common.Outcome QV.Common.PyAscii QV.Common.NearestDouble.
+From Coq Require Import ZArith NArith List String Ascii Bool.
+Require Import QV.Common.Outcome QV.Common.PyAscii QV.Common.NearestDouble QV.Common.NearestDoubleNorm.
 Require Import QV.Gen.PTable QV.Model.PeriodicTable.
 Import ListNotations.
 Open Scope Z_scope.
@@ -11,9 +11,46 @@ Definition key_mass_float (k : string) : outcome (Z * Z) :=
   obind (key_mass_dec k) (fun d => Ok (nearest_double d)).
 Definition to_mass_float (x : pyval) : outcome (Z * Z) := obind (resolve x false) key_mass_float.
 
+(** float(str) modelled on the decimal digit string itself: the string  d...d[.d...d]  denotes n / 10^k (n = the
+    integer spelt by all its digits, k = the number of digits after the point); [float_of_decstr] rounds that fraction
+    to the nearest binary64 directly ([ndp], Common/NearestDoubleNorm.v). *)
+Fixpoint fs_scan (s : string) (num k : Z) (ndig : N) (infrac : bool) : option (Z * Z) :=
+  match s with
+  | EmptyString => if N.eqb ndig 0 then None else Some (num, k)
+  | String c r =>
+      match digit_val c with
+      | Some d => fs_scan r (num * 10 + d) (if infrac then k + 1 else k) (N.succ ndig) infrac
+      | None => if Ascii.eqb c "."%char then (if infrac then None else fs_scan r num k ndig true) else None
+      end
+  end.
+
+(** the fraction n / 10^k denoted by the string *)
+Definition decstr_frac (s : string) : option (Z * Z) :=
+  match fs_scan s 0 0 0%N false with Some (n, k) => Some (n, 10 ^ k) | None => None end.
+
+Definition float_of_decstr (s : string) : option (Z * Z) :=
+  match fs_scan s 0 0 0%N false with
+  | Some (n, k) => Some (if n =? 0 then (0, 0) else ndp n (10 ^ k))
+  | None => None
+  end.
+
+(** what the result means, stated on the fraction n/d denoted by the string (n > 0): with the fraction scaled by 2^-e
+    ([sc]), m has 53 bits (or is 2^53), is within 1/2 of it, and is even on a tie *)
+Definition frac_nearest (n d m e : Z) : Prop :=
+  let num := fst (sc n d e) in
+  let den := snd (sc n d e) in
+  0 < den /\ 2 ^ 52 <= m <= 2 ^ 53 /\
+  2 * Z.abs (num - m * den) <= den /\ (2 * Z.abs (num - m * den) = den -> Z.even m = true).
+
+
+(** to_mass(atom) = float(self._eliso2mass[key]) on the shipped string *)
+Definition key_mass_float_str (k : string) : outcome (Z * Z) :=
+  obind (key_mass_str k) (fun s => match float_of_decstr s with Some f => Ok f | None => Err PyValueError end).
+Definition to_mass_float_str (x : pyval) : outcome (Z * Z) := obind (resolve x false) key_mass_float_str.
+
 (** (atom, what the implementation returned: the float decomposed exactly into m * 2^e, or the error) *)
 Definition check_fmass (c : pyval * outcome (Z * Z)) : bool :=
-  outcome_eqb float_eqb (to_mass_float (fst c)) (snd c).
+  outcome_eqb float_eqb (to_mass_float_str (fst c)) (snd c).
 
 (** per key: the model's float is a normal double (53-bit significand, exponent in range) or exactly zero *)
 Definition key_float_ok (k : string) : bool :=
